@@ -21,8 +21,10 @@ GROUPS = [["TokenCooccurrenceVectorizer"], ["TimedTokenCooccurrenceVectorizer"],
 
 
 def run(ctx, replay=None):
-    C.run_gate(ctx, extra_props=[p for p in ("C09", "C16", "C05") if __import__("os").path.exists(
-        __import__("os").path.join(C.COQ, "theories", "Properties", p + ".v"))])
+    import glob
+    import os
+    extra = sorted(os.path.basename(p)[:-2] for p in glob.glob(os.path.join(C.COQ, "theories", "Properties", "C02_*.v")))
+    C.run_gate(ctx, extra_props=extra)
     per = 2 if ctx.quick else 25
     if replay:
         groups = [[tuple(replay["case"])]]
